@@ -46,6 +46,18 @@ var commonAssumptions = []string{
 
 func init() {
 	register(&Def{
+		ID: "C12", Level: "exploration", MinSigs: 30,
+		Rule:        "mixed histories of 200-500 (thorough: up to 2000) operations on one accumulating state: successful and refused orbiter transfers over 4 source channels x calibrated and hostile destinations x 3 denoms x fee settings, non-orbiter receives, deposits, pause/unpause messages; a shadow ledger is folded only from ledger-observed successful transfers (incoming = packet amount, outgoing = model A - fees) and compared as whole maps with the exported statistics every 5 operations; per operation the statistics delta must be exactly the model entry on success and empty otherwise; in - out = fees per route; plus a history in real blocks (mode T) and a scenario that drives one route past 2^256. distinct = (source channel, denom, destination, fee?) routes that accumulated",
+		Assumptions: append([]string{"only the fee action exists on the native wiring, so denomination-changing histories (two entries per transfer) are covered by C06's alternative keeper, not here"}, commonAssumptions...),
+		Run:         withLab(world.Config{Channels: 4}, CheckC12),
+	})
+	register(&Def{
+		ID: "C18", Level: "exploration", MinSigs: 20,
+		Rule:        "walks of 10 UpdateParams messages (values 0,1,2,255,256,4095,19999,20000,30000,2^31,2^32-1, random; 1 in 6 by an unauthorized signer) from the default genesis, and fresh chains whose genesis sets the parameter; after every message the Params query and the exported genesis must equal the model (last value set by genesis or authority) and probes with passthrough lengths {0,1,L-1,L,L+1,2L,L+100,20000} on calibrated destinations through the real core handler must be accepted iff len <= L; refused probes leave no credit. distinct = (limit bucket, within/over, length class, outcome)",
+		Assumptions: append([]string{"ICS-20 caps the memo at 32 KiB, so limits above ~20000 bytes are observable only as 'never refused for size'"}, commonAssumptions...),
+		Run:         withLab(world.Config{}, CheckC18),
+	})
+	register(&Def{
 		ID: "C10", Level: "exploration", MinSigs: 60,
 		Rule:        "the Msg RPC surface is enumerated at run time from the protobuf registry (every method of every service named Msg in a noble.orbiter.* package; signer field from cosmos.msg.v1.signer), so new RPCs are included; each RPC x 13 impostor signer classes (users, module accounts, empty, garbage, other HRP, padded/truncated/hex authority; upper-case authority = EITHER) x {hand-written valid body executed in the state where it is valid, reflection-filled random bodies} through the application's MsgServiceRouter: must return an error, leave the digest of all 13 KV stores unchanged and emit no event; the valid bodies signed by the authority must succeed (incl. ReplaceDepositForBurn with a real deposit and a harness-signed attestation); plus impostor- and authority-signed transactions through FinalizeBlock. distinct = (rpc, signer class, body kind, outcome)",
 		Assumptions: append([]string{"for an RPC added later only random bodies exist, so 'succeeds for the authority' is checked for the 8 known message types only"}, commonAssumptions...),
